@@ -3,6 +3,7 @@ package main
 import (
 	"fmt"
 	"go/ast"
+	"go/token"
 	"go/types"
 	"sort"
 	"strings"
@@ -11,7 +12,7 @@ import (
 func init() {
 	register(&propDef{
 		ID:          "C02",
-		Explanation: "Decides four structural necessary conditions of 'generated Go compiles and renders what the template denotes', for ALL emission paths of the generator (GEM: every function of package generator abstracted to a tree of emissions; loops unrolled 0/1/2; paths rendered with typed placeholders and parsed with go/parser): R1 every path is syntactically valid Go; R2 every string-literal emission is a well-formed interpreted-string body (constants checked with strconv.Unquote, holes must come through escapeQuotes or be html-escaped parser names); R3 expressions owned by a guarded construct (if / else-if / for / switch / case / conditional attribute) are only emitted or collected after the guard's own expression was emitted in the same function; R4 the two void-element tables agree, the void early-return precedes children and close tag, Go comments emit nothing; R5 the literal-coalescing layer closes a pending literal before any Go text; R6 every emission path type-checks (go/types, in process) against the current templ and templ/runtime packages with its holes left as undefined placeholders — a misspelled or removed runtime function, a wrong argument count, an assignment count mismatch or a wrongly typed value in an emitted template is reported. NOT decided: denotation/order of markup, trailing-space policy, argument passing, that `go build` accepts arbitrary user expressions.",
+		Explanation: "Decides four structural necessary conditions of 'generated Go compiles and renders what the template denotes', for ALL emission paths of the generator (GEM: every function of package generator abstracted to a tree of emissions; loops unrolled 0/1/2; paths rendered with typed placeholders and parsed with go/parser): R1 every path is syntactically valid Go; R2 every string-literal emission is a well-formed interpreted-string body (constants checked with strconv.Unquote, holes must come through escapeQuotes or be html-escaped parser names); R3 expressions owned by a guarded construct (if / else-if / for / switch / case / conditional attribute) are only emitted or collected after the guard's own expression was emitted in the same function; R4 the two void-element tables agree, the void early-return precedes children and close tag, Go comments emit nothing; R5 the literal-coalescing layer closes a pending literal before any Go text; R6 every emission path type-checks (go/types, in process) against the current templ and templ/runtime packages with its holes left as undefined placeholders — a misspelled or removed runtime function, a wrong argument count, an assignment count mismatch or a wrongly typed value in an emitted template is reported; R7 a control-flow writer that receives the node following its own node passes it to every child list it writes (if / else-if / else, for, switch cases), so the last inline child of whichever branch is taken keeps its separation from inline content after the statement; R8 in the spread-attribute renderer every case whose value carries a boolean (bool, *bool, func() bool, KeyValue[…, bool]) writes the attribute only under a condition that has that boolean as a conjunct. NOT decided: denotation/order of markup, trailing-space policy, argument passing, that `go build` accepts arbitrary user expressions.",
 		Assumptions: []string{"go/parser accepts exactly syntactically valid Go", "placeholders stand for a user expression / identifier of the right syntactic category (searched, ≤5 categories per hole)"},
 		Trusted:     []string{"go/types", "go/parser", "x/tools go/packages", "strconv.Unquote"},
 		Run:         runC02,
@@ -26,6 +27,8 @@ func runC02(c *Ctx) {
 	gGuard(c, "C02.R3")
 	voidTables(c, "C02.R4")
 	rwLayer(c, "C02.R5")
+	nextSiblingPropagation(c, "C02.R7")
+	boolAttributePresence(c, "C02.R8")
 }
 
 // guarded child lists: owner type → fields that hold the guarded children
@@ -466,4 +469,167 @@ func rwLayer(c *Ctx, rule string) {
 		}
 	}
 	c.floor(rule, 5)
+}
+
+// nextSiblingPropagation: C02.R7 — a writer that receives the node following its own node (to decide whether the
+// last child's trailing space is needed) passes it to EVERY child list it writes.
+func nextSiblingPropagation(c *Ctx, rule string) {
+	g := c.gem()
+	nodeT, _ := c.pkg("parser/v2").Types.Scope().Lookup("Node").(*types.TypeName)
+	if nodeT == nil {
+		c.viol(rule, "anchor-lost:parser.Node", "", "parser.Node not found")
+		return
+	}
+	isNodeList := func(fn *types.Func) bool {
+		sig := fn.Type().(*types.Signature)
+		n := sig.Params().Len()
+		if n < 2 {
+			return false
+		}
+		last := sig.Params().At(n - 1).Type()
+		prev := sig.Params().At(n - 2).Type()
+		sl, ok := prev.(*types.Slice)
+		return ok && types.Identical(last, nodeT.Type()) && types.Identical(sl.Elem(), nodeT.Type())
+	}
+	nfn := 0
+	for _, gf := range g.order {
+		if !gf.Emits {
+			continue
+		}
+		// parser.Node parameters other than the first node parameter ("current")
+		var nodeParams []types.Object
+		for _, prm := range gf.Decl.Type.Params.List {
+			if t := g.info.TypeOf(prm.Type); t != nil && types.Identical(t, nodeT.Type()) {
+				for _, nm := range prm.Names {
+					nodeParams = append(nodeParams, g.info.Defs[nm])
+				}
+			}
+		}
+		if len(nodeParams) == 0 {
+			continue
+		}
+		type callInfo struct {
+			call *ast.CallExpr
+			arg  types.Object
+		}
+		var calls []callInfo
+		ast.Inspect(gf.Decl.Body, func(n ast.Node) bool {
+			call, ok := n.(*ast.CallExpr)
+			if !ok {
+				return true
+			}
+			fn := calleeOf(g.info, call)
+			if fn == nil || fn.Pkg() == nil || fn.Pkg().Path() != pkgGenerator || !isNodeList(fn) {
+				return true
+			}
+			ci := callInfo{call: call}
+			if id, ok := call.Args[len(call.Args)-1].(*ast.Ident); ok {
+				ci.arg = g.info.ObjectOf(id)
+			}
+			calls = append(calls, ci)
+			return true
+		})
+		for _, np := range nodeParams {
+			passes := 0
+			for _, ci := range calls {
+				if ci.arg == np {
+					passes++
+				}
+			}
+			if passes == 0 {
+				continue // this parameter is not a "next sibling" that the function forwards
+			}
+			nfn++
+			for i, ci := range calls {
+				key := fmt.Sprintf("%s|child-list#%d:%s", gf.Key, i+1, types.ExprString(ci.call.Args[len(ci.call.Args)-2]))
+				c.check(ci.arg == np, rule, key, c.pos(ci.call.Pos()), "passes the following sibling "+np.Name()+" on",
+					fmt.Sprintf("%s writes the child list %s with %s as the following node while its other child lists get %s: when that branch is taken and ends in inline content, the space before the inline content that follows the whole statement is lost", gf.Name, types.ExprString(ci.call.Args[len(ci.call.Args)-2]), types.ExprString(ci.call.Args[len(ci.call.Args)-1]), np.Name()))
+			}
+		}
+	}
+	c.count("next_sibling_forwarding_writers", nfn)
+	c.floor(rule, 4)
+}
+
+// boolAttributePresence: C02.R8 — in the spread-attribute renderer, an attribute whose value carries a boolean is written
+// only under a condition that evaluates that boolean.
+func boolAttributePresence(c *Ctx, rule string) {
+	p := c.pkg(".")
+	info := p.TypesInfo
+	fd := findFunc(p, "", "RenderAttributes")
+	if fd == nil {
+		c.viol(rule, "anchor-lost:templ.RenderAttributes", "", "templ.RenderAttributes (exported; emitted by every spread attribute) not found")
+		return
+	}
+	var ts *ast.TypeSwitchStmt
+	ast.Inspect(fd.Body, func(n ast.Node) bool {
+		if t, ok := n.(*ast.TypeSwitchStmt); ok && ts == nil {
+			ts = t
+		}
+		return true
+	})
+	if ts == nil {
+		c.undec(rule, funcKey(p, fd)+"|type-switch", c.pos(fd.Pos()), "RenderAttributes has no type switch over the attribute value")
+		return
+	}
+	bound := "value"
+	if as, ok := ts.Assign.(*ast.AssignStmt); ok && len(as.Lhs) == 1 {
+		bound = types.ExprString(as.Lhs[0])
+	}
+	for _, cl := range ts.Body.List {
+		cc := cl.(*ast.CaseClause)
+		if len(cc.List) != 1 {
+			continue
+		}
+		t := info.TypeOf(cc.List[0])
+		if t == nil {
+			continue
+		}
+		tstr := types.TypeString(t, func(*types.Package) string { return "" })
+		var need []string
+		switch {
+		case tstr == "bool":
+			need = []string{bound}
+		case tstr == "*bool":
+			need = []string{"*" + bound}
+		case tstr == "func() bool":
+			need = []string{bound + "()"}
+		case strings.HasPrefix(tstr, "KeyValue[") && strings.HasSuffix(tstr, ", bool]"):
+			need = []string{bound + ".Value"}
+			if strings.HasPrefix(tstr, "KeyValue[bool,") {
+				need = append(need, bound+".Key")
+			}
+		}
+		if need == nil {
+			continue
+		}
+		key := fmt.Sprintf("%s|case:%s", funcKey(p, fd), tstr)
+		// the case body is one if statement; its condition must hold every needed boolean as a conjunct
+		good, why := false, "the case body is not a single if statement guarding the write"
+		if len(cc.Body) == 1 {
+			if is, ok := cc.Body[0].(*ast.IfStmt); ok {
+				conj := map[string]bool{}
+				var walk func(e ast.Expr)
+				walk = func(e ast.Expr) {
+					e = ast.Unparen(e)
+					if be, ok := e.(*ast.BinaryExpr); ok && be.Op == token.LAND {
+						walk(be.X)
+						walk(be.Y)
+						return
+					}
+					conj[types.ExprString(e)] = true
+				}
+				walk(is.Cond)
+				good = true
+				for _, nd := range need {
+					if !conj[nd] {
+						good, why = false, "the condition `"+types.ExprString(is.Cond)+"` does not require "+nd
+					}
+				}
+			}
+		}
+		c.check(good, rule, key, c.pos(cc.Pos()), "written only when "+strings.Join(need, " && ")+" holds",
+			fmt.Sprintf("RenderAttributes, case %s: %s — the attribute would be present although its boolean value is false", tstr, why))
+	}
+	c.floor(rule, 4)
 }
